@@ -11,6 +11,7 @@ from vlib.runner import SubProp, Violation
 from mir_eval import segment
 
 PROPERTY_ID = "C16"
+SCALE = (2, 5)   # budget multiplier (quick, thorough) applied to the n=(...) of every generated sub-property
 LEVEL = "exploration"
 RULE = ("pairs of labeled segmentations with equal span from 0 (1..7 segments, repeated / unique / single / mixed-case labels; estimate "
         "independent, same boundaries, a relabelling, or identical), frame sizes dyadic, non-divisors of the duration (0.75, 1.5) and "
